@@ -86,11 +86,13 @@ pub open spec fn status_code_of(n: int) -> Option<StatusCode> {
 }
 
 /// A-table-status (Kani: table_status_code + table_status_decode_total, all 65 536 codes): a defined
-/// code decodes to its symbol; an undefined code decodes to nothing or to the catch-all symbol.
+/// code decodes to its symbol; an undefined code decodes to nothing, to the catch-all symbol, or (table extended) to its own symbol.
 pub axiom fn axiom_status_code_from(n: int)
     ensures 0 <= n < 65536 ==> (status_code_of(n) is Some ==> #[trigger] from_prim::<StatusCode>(n) == status_code_of(n))
         && (status_code_of(n) is None ==> (from_prim::<StatusCode>(n) is None
-            || from_prim::<StatusCode>(n) == Some(StatusCode::UnknownStatusCode)));
+            || from_prim::<StatusCode>(n) == Some(StatusCode::UnknownStatusCode)
+            // the table may be extended: a code this table does not list may have its OWN symbol, never another code's
+            || (from_prim::<StatusCode>(n).unwrap() as int) == n));
 
 /// A-table-valuetag (Kani: table_value_tag, all 256 bytes)
 pub axiom fn axiom_value_tag_from(n: int)
